@@ -24,7 +24,10 @@ CLAIMS = {
         text="Theorems about the comparators translated from errors.py on every run: Error.__lt__ is a strict weak order on diagnostics "
              "with >= 1 highlight (all positions, names, highlight lists), the sort is a permutation, the listed order is ascending in "
              "the (line, column) of the key highlight and - for diagnostics whose first highlight is position-minimal - in the printed "
-             "(line, column); both formats render the same sorted list and status.  Tied to the code by the translator, by exhaustive "
+             "(line, column); both formats render the same sorted list and status; every token of every source text sits at a position "
+             "inside the file (1 <= line <= 1 + newlines, column >= 1; engine diagnostics copy token positions); over the table of "
+             "all static emission sites regenerated from the source, every literal code is a catalogue key except four listed "
+             "ones (BAD_LEXEME: recorded finding) and no site has an opaque code.  Tied to the code by the translator, by exhaustive "
              "comparator correspondence on a small domain, byte-exact humanized-format correspondence, and by evaluating order, "
              "catalogue text, levels, positions and human/JSON agreement on the real reports of ~270 files.",
         ref="DESIGN.md 4.8", technique="Rocq proof over comparators regenerated from errors.py; differential + report search",
